@@ -329,6 +329,8 @@ SUB_LITERALS = {
     'time': ['11:30', '3 pm', '17:45:10', '10:30 EST', '0:15'],
     'len': ['5 km', '3 mile', '7 inch', '250 cm'],
     'mem': ['64 kb', '2 gb'],
+    # money with more digits than the currency prints (the reference writes the expression in parentheses)
+    'mexpr': ['$100 / 3', '10 usd / 7', '$1 / 3', '100 eur / 7', '10 usd to try', '2 try / 3'],
 }
 SUB_SAME_VALUE = [('255', '0xFF'), ('0xFF', '255'), ('8', '0o10'), ('5', '0b101'), ('0b101', '5'), ('16', '0x10')]     # same magnitude, other base
 SUB_TEMPLATES = [
@@ -340,6 +342,8 @@ SUB_TEMPLATES = [
     '{pct} off {money}', '{money} is what % of {money2}', '{money}',
     '{dur} {dur2}', '{dur} + {dur2}', '{dur} - {dur2}', '{dur} as minutes', '{dur} to seconds', '5 hours - {dur} 30 minutes', '{dur}',
     '{len} to m', '{len} + {len2}', '{len} * {num}', '{len} / {len2}', '{mem} to mb', '{mem} + {mem2}',
+    '{mexpr} * 3', '{mexpr} * 1000', '{mexpr} * {num}', '{mexpr} / 0,001',
+    '200 + -{pct}', '200 - -{pct}', '{money} * -{pct}', '{money} + -{pct}', '{num} + -{num2}', '{num} * -{num2}', '{num} - -{num2}', '{num} / -{num2}', '{money} * -{num}', '{len} * -{num}',
     '{pct} of {num}', '{num} + {pct}', '{num} - {pct}', '{pct} on {num}', '{num} is {pct} of what', '{num} is what % of {num2}', '{pct}',
 ]
 # ('euro rate' contains an alias word, 'tax-rate' a character that is an operator: both are only used here, where no number literal
@@ -367,7 +371,7 @@ def substitution_case(rng):
         lines.append('%s = %s' % (recase(rng, name), lit))
         key_ = '{%s%s}' % (kind, two)
         prog = prog.replace(key_, recase(rng, name), 1)
-        ref = ref.replace(key_, lit, 1)
+        ref = ref.replace(key_, ('(%s)' % lit) if kind == 'mexpr' else lit, 1)
     return '\n'.join(lines + [prog]), ref, tpl
 
 
